@@ -80,6 +80,10 @@ package ast
 //@            forall i :: 0 <= i && i < len(t.Requires.Vars) ==> t.Requires.Vars[i] != nil                    [C16]
 //@ func (*Taskfile).UnmarshalYAML
 //@   sweep                                                         [C16]
+// a Taskfile that names no output style HAS none (Output.IsSet() is false): that is how Taskfile.Merge tells an
+// include that chose a style from one that did not, and how the executor falls back to its own default. The decoder
+// takes the decoded style over as it is and fills in nothing
+//@   nosite store:Output.*                                         [C17]
 //@ func (*Tasks).UnmarshalYAML
 //@   sweep                                                         [C16]
 //@   loop 1 invariant 0 <= i && i % 2 == 0                         [C16]
